@@ -194,6 +194,38 @@ func withReader(s *scripted, f func()) (ro runOut) {
 	return
 }
 
+// sepStreamIndependent: separator settings whose entropy term cannot depend on the stream —
+// everything except a recipe-built function whose recipe has requirements (known finding D9).
+func sepStreamIndependent(sep string) bool {
+	if strings.HasPrefix(sep, "recipe:") {
+		r := parseRecipe(sep[7:])
+		return r.require == 0 && len(r.rs) == 0
+	}
+	return true
+}
+
+// nestedCall: a complete, unrelated use of the library on its own scripted source, made while an
+// outer call is in progress (see scripted.reenter). crypto/rand.Reader is the outer call's reader
+// while this runs; it is swapped for the nested script and put back.
+func nestedCall() {
+	outer := crand.Reader
+	defer func() { crand.Reader = outer; recover() }()
+	nb := make([]byte, 4*64)
+	for i := range nb {
+		nb[i] = byte(37*i + 11)
+	}
+	crand.Reader = &scripted{bytes: nb}
+	cr := spg.CharRecipe{Length: 9, Allow: spg.Letters | spg.Digits, Require: spg.Digits}
+	_, _ = cr.Generate()
+	_ = cr.Entropy()
+	if wl, err := spg.NewWordList([]string{"north", "south", "east", "west"}); err == nil {
+		wr := spg.NewWLRecipe(3, wl)
+		wr.SeparatorFunc = spg.SFDigits1
+		wr.Capitalize = spg.CSRandom
+		_, _ = wr.Generate()
+	}
+}
+
 func planOf(s string) []resp {
 	var plan []resp
 	for _, f := range strings.Split(s, ",") {
@@ -357,6 +389,25 @@ func passwordShape(p *spg.Password) string {
 	}
 	if !sameStrings(ts.Separators(), seps) {
 		return " SHAPE-FAIL=Separators"
+	}
+	// every generated password round-trips through its index with ITS OWN entropy (C11) — whatever
+	// that entropy is (0 bits for a one-word list or a one-character alphabet included)
+	if ix, err := ts.MakeIndices(); err == nil && len(ts) > 0 && p.Entropy == p.Entropy && !math.IsInf(float64(p.Entropy), 0) {
+		ok := true
+		for _, t := range ts {
+			if c := utf8.RuneCountInString(t.Value()); c < 1 || c > 255 {
+				ok = false
+			}
+		}
+		if ok {
+			q, terr := spg.Tokenize(s, ix, p.Entropy)
+			if terr != nil {
+				return " ROUNDTRIP-FAIL=error-on-generated-password"
+			}
+			if !reflect.DeepEqual(q.Tokens(), ts) || q.Entropy != p.Entropy {
+				return " ROUNDTRIP-FAIL=generated-password-differs"
+			}
+		}
 	}
 	return ""
 }
@@ -715,11 +766,14 @@ func (e *executor) exec1(line, lean string) string {
 				if M.Sign() > 0 && cnt.Sign() >= 0 && spg.MaxTrials > 0 && spg.MaxFailRate > 0 && spg.MaxFailRate < 1 && n > 0 && spec.L >= 1 {
 					pi, _ := new(big.Float).Quo(new(big.Float).SetInt(cnt), new(big.Float).SetInt(M)).Float64()
 					pstar := 1 - math.Pow(spg.MaxFailRate, 1/float64(spg.MaxTrials))
-					if obs == "0" && pi > 1.5*pstar+1e-9 {
-						accOut += fmt.Sprintf(" REFUSED-ABOVE-THRESHOLD(p=%.4g,needed=%.4g)", pi, pstar)
+					// outside the guard band (where float32 rounding in the implementation could tip the
+					// decision either way) the decision is determined: (1-p)^T <= MaxFailRate
+					want := float64(spg.MaxTrials)*math.Log1p(-pi) <= math.Log(spg.MaxFailRate)
+					if obs == "0" && want {
+						accOut += fmt.Sprintf(" REFUSED-ABOVE-THRESHOLD(p=%.6g,needed=%.6g)", pi, pstar)
 					}
-					if obs == "1" && pi < pstar/1.5 {
-						accOut += fmt.Sprintf(" ACCEPTED-BELOW-THRESHOLD(p=%.4g,needed=%.4g)", pi, pstar)
+					if obs == "1" && !want {
+						accOut += fmt.Sprintf(" ACCEPTED-BELOW-THRESHOLD(p=%.6g,needed=%.6g)", pi, pstar)
 					}
 				}
 			}
@@ -744,6 +798,21 @@ func (e *executor) exec1(line, lean string) string {
 		}
 		if _, chunked := a["chunk"]; !chunked && a["extra"] == "" {
 			oracle += attemptsOracle(spec, decWords(a["tape"]), err, ro.used, spg.MaxTrials)
+		}
+		// the same call with ANOTHER complete call made in the middle of it (from inside the
+		// random source's Read, after it has delivered its bytes): a call's result is a function of
+		// its recipe and the bytes it was given, not of what else the library is doing meanwhile
+		if a["reenter"] != "" && !ro.panicked && err == nil && p != nil {
+			s2 := readerFor(a)
+			s2.reenterAt = a.int("reenter")
+			s2.reenter = nestedCall
+			var p2 *spg.Password
+			var err2 error
+			ro2 := withReader(s2, func() { p2, err2 = r.Generate() })
+			capt.take()
+			if ro2.panicked || err2 != nil || p2 == nil || p2.String() != p.String() || p2.Entropy != p.Entropy {
+				oracle += " REENTRANCY-DEPENDENT"
+			}
 		}
 		return genLine("chargen", lean, p, err, ro, warn, unk, 3, secretsOf(p, nil)) + oracle + after()
 
@@ -860,6 +929,10 @@ func (e *executor) exec1(line, lean string) string {
 		} else {
 			applySep(r, a["sep"])
 		}
+		if v, ok := a["sepchar"]; ok && r.SeparatorFunc != nil {
+			// both fields set: the function is what Generate AND Entropy go by
+			r.SeparatorChar = decCps(v)
+		}
 		r.Capitalize = spg.CapScheme(decCps(a["cap"]))
 		before := *r
 		if a.int("L") > st.MaxLength {
@@ -873,7 +946,19 @@ func (e *executor) exec1(line, lean string) string {
 			if ro.panicked {
 				return panicLine(ro.panicMsg) + unknownField(unk)
 			}
-			return fmt.Sprintf("ok %s used=%d warn=%d%s%s", dField(lean, ent, 8), ro.used, warn, unknownField(unk), after())
+			stable := ""
+			if sepStreamIndependent(a["sep"]) && wl != nil && r.Length >= 1 {
+				// the entropy of a recipe is a property of the recipe: whatever the source does
+				// (another stream, a stream that ends), a value that IS returned is that value
+				healthy := &scripted{bytes: make([]byte, 4096)}
+				var ent2 float32
+				ro2 := withReader(healthy, func() { ent2 = r.Entropy() })
+				capt.take()
+				if !ro2.panicked && math.Float32bits(ent) != math.Float32bits(ent2) && !(ent != ent && ent2 != ent2) {
+					stable = fmt.Sprintf(" D=UNSTABLE(%v,on-a-healthy-source:%v)", ent, ent2)
+				}
+			}
+			return fmt.Sprintf("ok %s used=%d warn=%d%s%s%s", dField(lean, ent, 8), ro.used, warn, unknownField(unk), stable, after())
 		}
 		var p *spg.Password
 		var err error
@@ -913,6 +998,32 @@ func (e *executor) exec1(line, lean string) string {
 			}
 			if p != nil {
 				e.kept[id] = keptPassword{p, showTokens(p.Tokens()) + "|" + p.String()}
+			}
+		}
+		// … however the source chunks its answers (C09): the same bytes delivered in short reads
+		if _, chunked := a["chunk"]; chunked && !ro.panicked && err == nil && p != nil {
+			s2 := &scripted{bytes: wordsToBytes(decWords(a["tape"]))}
+			var p2 *spg.Password
+			ro2 := withReader(s2, func() { p2, _ = r.Generate() })
+			capt.take()
+			if !ro2.panicked && p2 != nil && showTokens(p2.Tokens()) != showTokens(p.Tokens()) {
+				so += " CHUNKING-DEPENDENT"
+			}
+		}
+		// statistical check of the separators drawn at each gap (C04)
+		if a["stat"] == "1" && !ro.panicked && err == nil && p != nil && wl != nil && strings.HasPrefix(a["sep"], "custom:") {
+			so += statSeps(r, a.int("L"), a["sep"], a["words"]+a["sep"]+a["L"])
+			capt.take()
+		}
+		if a["reenter"] != "" && !ro.panicked && err == nil && p != nil {
+			s2 := readerFor(a)
+			s2.reenterAt = a.int("reenter")
+			s2.reenter = nestedCall
+			var p2 *spg.Password
+			ro2 := withReader(s2, func() { p2, _ = r.Generate() })
+			capt.take()
+			if ro2.panicked || p2 == nil || showTokens(p2.Tokens()) != showTokens(p.Tokens()) || p2.Entropy != p.Entropy {
+				so += " REENTRANCY-DEPENDENT"
 			}
 		}
 		// the same recipe on the same bytes makes the same choices (C09)
@@ -993,7 +1104,8 @@ func (e *executor) exec1(line, lean string) string {
 			for _, v := range vals {
 				pw += v
 			}
-			ent := float32(12.5)
+			// the entropy is carried, not interpreted: any value a recipe can report, 0 bits included
+			ent := []float32{12.5, 0, 0.25, 300.5, 65536, 1}[len(pw)%6]
 			var q spg.Password
 			var terr error
 			ro2 := withReader(&scripted{}, func() { q, terr = spg.Tokenize(pw, ix, ent) })
